@@ -31,7 +31,7 @@ def run_rules_on(prog: Program, prop: str, mod, tier: str, check_floors: bool = 
     return ctx
 
 
-def check(prop: str, tier: str, root: str = REPO) -> int:
+def check(prop: str, tier: str, root: str = REPO, evidence: bool = True) -> int:
     t0 = time.time()
     mod = load_rules(prop)
     prog = Program(root)
@@ -64,7 +64,8 @@ def check(prop: str, tier: str, root: str = REPO) -> int:
     for o in ctx.observations:
         print(f"OBSERVATION: {o}")
     wall = time.time() - t0
-    write_evidence(prop, tier, ctx, getattr(mod, "META", {}), wall, new, known_hit, selftest, extra)
+    if evidence:
+        write_evidence(prop, tier, ctx, getattr(mod, "META", {}), wall, new, known_hit, selftest, extra)
     st = prog.stats()
     print(
         f"{prop} [{tier}]: {st['units']} units, {st['functions']} functions; "
@@ -81,7 +82,7 @@ def check(prop: str, tier: str, root: str = REPO) -> int:
         print(f"SELFTEST-NOTE (not deciding the exit status while violations are reported): {st_error}")
     if new:
         for i, f in enumerate(new):
-            path = write_replay(prop, i, f)
+            path = write_replay(prop, i, f) if evidence else "(not written)"
             print(f"  {f.file}:{f.line} {f.qualname} [{prop}.{f.rule}] {f.message}")
             for w in f.witness[:12]:
                 print(f"      | {w}")
@@ -115,6 +116,7 @@ def main(argv=None) -> int:
     c.add_argument("prop")
     c.add_argument("--tier", default=os.environ.get("VERIF_TIER", "quick"), choices=["quick", "thorough"])
     c.add_argument("--root", default=REPO)
+    c.add_argument("--no-evidence", action="store_true", help="do not (re)write evidence/replay files (tooling runs on scratch trees)")
     r = sub.add_parser("replay")
     r.add_argument("path")
     k = sub.add_parser("keys")
@@ -124,7 +126,7 @@ def main(argv=None) -> int:
     a = ap.parse_args(argv)
     try:
         if a.cmd == "check":
-            return check(a.prop.upper(), a.tier, a.root)
+            return check(a.prop.upper(), a.tier, a.root, evidence=not a.no_evidence)
         if a.cmd == "replay":
             return replay(a.path)
         if a.cmd == "keys":
